@@ -232,6 +232,9 @@ def _parse_composition(
     if isinstance(element, ObjectMeta):
         return AllOf(element, default=default)
     if "default" in schema:
+        if not isinstance(element.default, NotPassed):
+            # The single remaining sub-schema declares its own default.
+            return AllOf(element, default=default)
         element.default = default
     return element
 
